@@ -9,6 +9,7 @@ package main
 // conditional analysis exists and reads the action edits of both escapers.
 
 import (
+	"go/constant"
 	"go/types"
 	"strings"
 
@@ -157,6 +158,62 @@ func checkRangeReentryAgreement(p *Program, r *Report, rule string) {
 				continue
 			}
 			r.Check(len(bases) >= 2, rule, c, p.Pos(in.Pos()), "the discarded second analysis of a range body is compared with the first: actions must get the same sanitizers in both", "the acceptance callback of the range re-entry analysis does not compare the action edits of the two analyses")
+			// the verdict of the callback tells escapeListConditionally whether to merge the edits of the second
+			// analysis into the first; the first has edits for the same nodes, and recording a second edit for a node
+			// panics: the callback must always answer false
+			{
+				merges := false
+				if callee := staticCallee(call.Common()); callee != nil {
+					for _, cb := range callee.Blocks {
+						for _, ci := range cb.Instrs {
+							cc, ok := ci.(*ssa.Call)
+							if !ok {
+								continue
+							}
+							if g := staticCallee(cc.Common()); g != nil && g.Pkg == callee.Pkg && functionPanics(g) {
+								merges = true
+							}
+						}
+					}
+				}
+				constFalse := true
+				for _, ret := range Returns(body) {
+					for _, rv := range ret.Results {
+						k, isK := rv.(*ssa.Const)
+						if !isK || k.Value == nil || k.Value.Kind() != constant.Bool || constant.BoolVal(k.Value) {
+							constFalse = false
+						}
+					}
+				}
+				if merges {
+					r.Check(constFalse, rule, c+"#never-merges", p.Pos(in.Pos()), "the acceptance callback of the re-entry analysis always answers false: the edits of the second analysis are discarded", "the acceptance callback of the re-entry analysis can answer true: the edits of the second analysis are then recorded for nodes the first analysis has already edited, and recording a second edit for a node panics — Execute panics instead of returning the re-entry error")
+				}
+			}
+			// a difference must be a difference of the lists as they are: a comparison up to an equivalence of
+			// sanitizer names (the one used to merge predefined escapers) treats _normalizeURL and _queryEscapeURL
+			// as the same
+			if len(bases) >= 2 {
+				inexact := ""
+				for _, bb := range body.Blocks {
+					for _, ins := range bb.Instrs {
+						cc, ok := ins.(*ssa.Call)
+						if !ok {
+							continue
+						}
+						g := staticCallee(cc.Common())
+						if g == nil || g.Pkg != body.Pkg || g.Blocks == nil {
+							continue
+						}
+						if tb, ok := g.Signature.Results().At(0).Type().Underlying().(*types.Basic); g.Signature.Results().Len() != 1 || !ok || tb.Kind() != types.Bool {
+							continue
+						}
+						if comparesUpToEquivalence(g, 0) {
+							inexact = fnName(g)
+						}
+					}
+				}
+				r.Check(inexact == "", rule, c+"#exact-comparison", p.Pos(in.Pos()), "the sanitizer lists of the two analyses are compared as they are", "the acceptance callback compares the sanitizer lists through "+inexact+", which identifies names through a table of equivalent escapers: a first iteration in the path of a URL (_normalizeURL) and later ones in its query (_queryEscapeURL) count as the same — `<a href=\"/go/{{range .}}{{.}}?next=/go/{{end}}done\">` lets the second item add '&', '=' and '#'")
+			}
 			// each kind of edit that depends on the context (the sanitizers of an action, the callee of a template
 			// call) is compared in a loop of its own, and what that loop finds is recorded
 			if len(bases) >= 2 && len(visibleStores) > 0 {
@@ -201,4 +258,41 @@ func checkRangeReentryAgreement(p *Program, r *Report, rule string) {
 	if n == 0 {
 		r.Undec(rule, c, p.Pos(fn.Pos()), "no conditional re-analysis of the range body found")
 	}
+}
+
+// functionPanics: the function contains a panic instruction.
+func functionPanics(g *ssa.Function) bool {
+	for _, b := range g.Blocks {
+		for _, in := range b.Instrs {
+			if _, ok := in.(*ssa.Panic); ok {
+				return true
+			}
+		}
+	}
+	return false
+}
+
+// comparesUpToEquivalence: the boolean helper (or one it calls) looks a string up in a package-level table before
+// comparing — it compares names up to the equivalence the table defines, not the names themselves.
+func comparesUpToEquivalence(g *ssa.Function, depth int) bool {
+	if depth > 3 || g == nil || g.Blocks == nil {
+		return false
+	}
+	for _, b := range g.Blocks {
+		for _, in := range b.Instrs {
+			switch x := in.(type) {
+			case *ssa.Lookup:
+				if ld, ok := x.X.(*ssa.UnOp); ok {
+					if _, isG := ld.X.(*ssa.Global); isG && isStringish(x.Index.Type()) {
+						return true
+					}
+				}
+			case *ssa.Call:
+				if h := staticCallee(x.Common()); h != nil && h != g && h.Pkg == g.Pkg && comparesUpToEquivalence(h, depth+1) {
+					return true
+				}
+			}
+		}
+	}
+	return false
 }
